@@ -184,13 +184,7 @@ Theorem C11_value_or_classified_error : forall sorter data symbols eci modes use
   (exists cw size, encode_data_internal (optimize_fn sorter) data symbols eci modes use_macros fnc1 = Ok (cw, size)) \/
   (exists x, encode_data_internal (optimize_fn sorter) data symbols eci modes use_macros fnc1 = Err x /\
              (x = SymbolListEmpty <-> symbols = []) /\ (x <> SymbolListEmpty -> x = TooMuchOrIllegalData)).
-Proof.
-  intros sorter data symbols eci modes um f HS HB HE. pose proof (abx_total6 sorter data symbols eci modes um f HS HB HE) as NP.
-  destruct (encode_data_internal (optimize_fn sorter) data symbols eci modes um f) as [[cw size]|x|p] eqn:E.
-  - left. exists cw, size. reflexivity.
-  - right. exists x. split; [reflexivity|]. split; [exact (encode_internal_err _ _ _ _ _ _ _ _ E)|]. intros NE. destruct x; try reflexivity; exfalso; apply NE; reflexivity.
-  - contradiction.
-Qed.
+Proof. exact value_or_classified_error. Qed.
 Print Assumptions C11_value_or_classified_error.
 
 (* ... and through DataMatrixBuilder::encode_eci, which appends the error correction codewords: the Reed-Solomon step is total on a
@@ -200,12 +194,7 @@ Theorem C11_builder_total : forall sorter data symbols modes use_macros fnc1 eci
   bytes_ok data = true ->
   match eci with Some c => c <= 999999 | None => True end ->
   no_panic (encode_eci sorter data symbols modes use_macros fnc1 eci).
-Proof.
-  intros sorter data symbols modes um f eci HS HB HE. unfold encode_eci. pose proof (abx_total6 sorter data symbols eci modes um f HS HB HE) as NP.
-  destruct (encode_data_internal (optimize_fn sorter) data symbols eci modes um f) as [[cw size]|x|p] eqn:E; cbn [bind]; [|exact I|contradiction].
-  destruct (encode_internal_ok _ _ _ _ _ _ _ _ _ E) as (_ & L & _).
-  destruct (encode_error_total size cw ltac:(lia)) as (ecc & ->). exact I.
-Qed.
+Proof. exact builder_total. Qed.
 Print Assumptions C11_builder_total.
 
 (* what is decided by running model and implementation (debug and release) on the same inputs rather than by these theorems: that the
